@@ -92,6 +92,7 @@ mut('C20-append-as-rewrite', (P + 'dumpers/to_sql.py', "            if mode == '
 mut('C20-updated-flag-always-false', (P + 'dumpers/to_sql.py', "            row[self.updated_column] = updated\n", "            row[self.updated_column] = bool(updated) and self.use_bloom_filter\n"))
 mut('C20-update-keys-first-field-only', (P + 'dumpers/to_sql.py', "                if update_keys is None:\n                    update_keys = schema_descriptor.get('primaryKey', [])\n", "                if update_keys is None:\n                    update_keys = schema_descriptor.get('primaryKey', [])\n                update_keys = update_keys[:1]\n"))
 mut('C16-iterable-name-collides', (H + 'iterable_loader.py', "            while 'res_{}'.format(index) in existing:\n                index += 1\n", "            pass\n"))
+mut('C07-load-keeps-previous-run', (P + 'load.py', "        # Running the same flow again starts from scratch\n        self.resource_descriptors = []\n        self.iterators = []\n", "        # Running the same flow again starts from scratch\n"))
 
 
 def main():
